@@ -75,6 +75,10 @@ def absR (x : Rat) : Rat := if x < 0 then -x else x
 
 def witnessOk (s : Rat) (d : V3) (eps : Rat) : Bool := s > 0 && absR (s * s - V3.dot d d) ≤ eps * (1 + V3.dot d d)
 
+/-- `CurveClamp.function([t])` on a `CircleCurve`: `f.rotate(rim, t, normal, origin)` at the rationally parametrised
+    angle `t = 2·atan2(|μ n|, w)` — the rim point turned about the axis through the origin -/
+def curveCircle (o rim n : V3) (w mu : Rat) : V3 := rotP w (V3.smul mu n) o rim
+
 /-- running sums `[acc + l0, acc + l0 + l1, …]` (`np.cumsum`) -/
 def cumul : Rat → List Rat → List Rat
   | _, [] => []
@@ -229,6 +233,10 @@ def handle (op : String) (args : List String) : Option String :=
       let ks ← parseKnots knots
       if !knotsOk ks then some "bad-knots" else
       some (match polyEval ks t with | some p => p.toStr | none => "out-of-range")
+  | "c17.curvecircle", [o, rim, n, w, mu] => do
+      let o ← parseV3? o; let rim ← parseV3? rim; let n ← parseV3? n; let w ← parseRat? w; let mu ← parseRat? mu
+      if w * w + V3.dot (V3.smul mu n) (V3.smul mu n) == 0 then some "degenerate" else
+      some (curveCircle o rim n w mu).toStr
   | "c17.chord", t :: n :: rest => do
       -- `c17.chord <t> <n> <p0 … p(n-1)> <l0 … l(n-2)>`: parameters by chord length computed here; answers the knot
       -- parameters and the position at t
